@@ -956,6 +956,70 @@ def rule_r7(ctx) -> List[R.Inst]:
         forwarding_insts(ctx, "C05.R7", BMSMAP + ".write", ("_write_notes",))
 
 
+def guarded_conversions(fn_node):
+    """`conv(B) if not isinstance(A, T) else C` (either polarity) and `if not isinstance(A, T): B' = conv(B)`: the value tested, the
+    value converted and the value passed through must be ONE value — (node, A, B, C) per site, texts."""
+    out = []
+
+    def conv_arg(e):
+        if isinstance(e, ast.Call) and call_name(e) in ("encode", "decode", "bytes", "str") and (e.args or isinstance(e.func, ast.Attribute)):
+            if isinstance(e.func, ast.Attribute) and e.func.attr in ("encode", "decode") and not (isinstance(e.func.value, ast.Name) and e.func.value.id == "codecs"):
+                return e.func.value
+            return e.args[0] if e.args else None
+        return None
+
+    def isinst(t):
+        neg = False
+        if isinstance(t, ast.UnaryOp) and isinstance(t.op, ast.Not):
+            t, neg = t.operand, True
+        if isinstance(t, ast.Call) and isinstance(t.func, ast.Name) and t.func.id == "isinstance" and len(t.args) == 2 and \
+                unparse(t.args[1]) in ("bytes", "str", "(bytes, bytearray)", "bytearray"):
+            return t.args[0], neg
+        return None, neg
+    for n in ast.walk(fn_node):
+        if isinstance(n, ast.IfExp):
+            a, _neg = isinst(n.test)
+            if a is None:
+                continue
+            for conv, plain in ((n.body, n.orelse), (n.orelse, n.body)):
+                b = conv_arg(conv)
+                if b is not None and conv_arg(plain) is None:
+                    out.append((n, unparse(a), unparse(b), unparse(plain)))
+                    break
+        elif isinstance(n, ast.If) and not n.orelse and len(n.body) == 1 and isinstance(n.body[0], ast.Assign) and len(n.body[0].targets) == 1:
+            a, _neg = isinst(n.test)
+            b = conv_arg(n.body[0].value)
+            if a is not None and b is not None:
+                out.append((n, unparse(a), unparse(b), unparse(n.body[0].targets[0])))
+    return out
+
+
+def rule_r11(ctx) -> List[R.Inst]:
+    """stated belief: 'encode X unless X is already bytes' tests, converts and passes through the SAME value — a guard on one name
+    around a conversion of another (`v = encode(v) if not isinstance(k, bytes) else v`) makes the test meaningless: the value is
+    converted when it must not be, or not converted when it must (a str reaches a bytes concatenation: TypeError, nothing written)"""
+    M = ctx.M
+    rid = "C05.R11"
+    insts = []
+    mod = M.mods[M.cls(BMSMAP).mod]
+    for q, f in sorted(M.funcs.items()):
+        if f.mod != mod.name:
+            continue
+        seen_k = {}
+        for n, a, b, c in sorted(guarded_conversions(f.node), key=lambda t: (t[0].lineno, t[0].col_offset)):
+            seen_k[b] = seen_k.get(b, 0) + 1
+            key = f"guarded-conversion:{f.name}:{b}" + (f"#{seen_k[b]}" if seen_k[b] > 1 else "")
+            if a == b == c:
+                insts.append(R.ok(rid, key, mod.rel, n.lineno, idiom=f"tests, converts and passes through '{a}'"))
+            else:
+                insts.append(R.viol(rid, key, mod.rel, n.lineno,
+                                    f"the guard tests '{a}' but the conversion is applied to '{b}' and '{c}' is passed through otherwise: "
+                                    f"whether '{b}' is converted does not depend on what '{b}' is (a str value reaches a bytes line: "
+                                    f"TypeError, the chart is not written; or bytes are encoded again)",
+                                    construct=f"{f.name}: isinstance({a}) / convert({b}) / else {c}"))
+    return insts
+
+
 def rule_dep(ctx):
     """obligations inherited from shared code reached through the call graph (sa/props/deps.py)"""
     from .deps import dep_insts
@@ -972,6 +1036,7 @@ SPECS = [
     RuleSpec("C05.R8", rule_r8, 1, "A8", "contradiction: a field the header emits only when non-empty is not used unguarded as a written value in the body"),
     RuleSpec("C05.R9", rule_r9, 1, "A9", "bounded write: a value formatted into a fixed-width field of a line is bounded first"),
     RuleSpec("C05.R10", rule_r10, 2, "A5", "disjoint value domains: no hit or hold head can be written with the #LNOBJ id that marks the end of a hold"),
+    RuleSpec("C05.R11", rule_r11, 4, "A8", "guarded conversions: 'encode unless already bytes' tests, converts and passes through one and the same value"),
     RuleSpec("C05.R6", rule_r6, 6, "A7", "writer timing map from every tempo point; slot = numerator * slots / (denominator * beats-per-measure)"),
     RuleSpec("C05.D", rule_dep, 1, "M0", "rules of the shared code (timing engine, list classes, stacker) that the operations of this property reach"),
 ]
